@@ -69,7 +69,13 @@ type CutSpec struct {
 	Line   int
 }
 
+type RevealClause struct {
+	Name string
+	Tags []string
+}
+
 type FuncSpec struct {
+	Reveals  []RevealClause // hidden predicates whose definition this function's proof may use
 	Cuts     []*CutSpec
 	Sets     []*SetClause // ghost assignments performed at return (definitional)
 	Key      string
@@ -100,6 +106,7 @@ type Define struct {
 	Src    string
 	Opaque bool // elaborated as an uninterpreted function (per heap state) with a definitional axiom
 	Stable bool // opaque, and inside a `modifies nothing` function always evaluated in the entry state (see DESIGN: stable predicates)
+	Hidden bool // stable, and its definition is only available in functions whose contract says `reveal NAME`
 }
 
 type Axiom struct {
@@ -128,7 +135,7 @@ func NewSpecs() *Specs {
 
 var trailingComment = regexp.MustCompile(`\s{2,}#.*$`)
 
-var kwRe = regexp.MustCompile(`^(requires|ensures|invariant|decreases|assert|modifies|loop|at-call|func|assumed|fun|axiom|define|opaque|stable|ghost|sort|pure|sets|after|before|lemma)\b(\[[^\]]*\])?\s*(.*)$`)
+var kwRe = regexp.MustCompile(`^(requires|ensures|invariant|decreases|assert|modifies|loop|at-call|func|assumed|fun|axiom|define|opaque|stable|hidden|reveal|ghost|sort|pure|sets|after|before|lemma)\b(\[[^\]]*\])?\s*(.*)$`)
 
 type rawItem struct {
 	kw, tags, rest string
@@ -206,7 +213,7 @@ func (s *Specs) LoadFile(path string, commentPrefix string) error {
 			s.Funs[fd.Name] = fd
 			s.FunList = append(s.FunList, fd)
 			cur = nil
-		case "define", "opaque", "stable":
+		case "define", "opaque", "stable", "hidden":
 			eq := strings.Index(rest, " = ")
 			if eq < 0 {
 				return perr(it, "define f(args) T = body")
@@ -219,7 +226,7 @@ func (s *Specs) LoadFile(path string, commentPrefix string) error {
 			if err != nil {
 				return perr(it, "%v", err)
 			}
-			s.Defines[fd.Name] = &Define{fd.Name, fd.Params, fd.Ret, body, rest, it.kw == "opaque" || it.kw == "stable", it.kw == "stable"}
+			s.Defines[fd.Name] = &Define{fd.Name, fd.Params, fd.Ret, body, rest, it.kw != "define", it.kw == "stable" || it.kw == "hidden", it.kw == "hidden"}
 			cur = nil
 		case "axiom":
 			c := strings.Index(rest, ":")
@@ -267,6 +274,13 @@ func (s *Specs) LoadFile(path string, commentPrefix string) error {
 				s.Funcs[key] = cur
 			}
 			curLoop, curAt = nil, nil
+		case "reveal":
+			if cur == nil {
+				return perr(it, "reveal outside func")
+			}
+			for _, n := range strings.Split(rest, ",") {
+				cur.Reveals = append(cur.Reveals, RevealClause{strings.TrimSpace(n), splitTags(it.tags)})
+			}
 		case "before":
 			if cur == nil {
 				return perr(it, "before outside func")
